@@ -52,6 +52,9 @@ HAND = [
     ("plain-decimals-with-exponent-repr", "(define (problem pr) (:domain dom) (:objects o0 o1 - t1) (:init (= (f0 o0) 0.00002) "
                                           "(= (f0 o1) -25000000000000000) (= (h) 25000000000000000) (= (f2 o0 o1) -0.00002)) "
                                           "(:goal (and (>= (f0 o0) 0.00002) (< (h) -25000000000000000))))", None),
+    ("goal-constants-equal-up-to-4-decimals", "(define (problem pr) (:domain dom) (:objects o0 - t1) (:init (= (f0 o0) 1)) "
+                                              "(:goal (and (>= (f0 o0) 0.99991) (>= (f0 o0) 0.99994) (< (h) 2.50004) (< (h) 2.49996) "
+                                              "(= (f0 c0) 7) (= (f0 c0) 7.0) (<= (h) 3) (<= (h) 3))))", None),
     ("nan-inf-values", "(define (problem pr) (:domain dom) (:objects o0 - t1) (:init (= (h) inf) (= (f0 o0) -inf)) (:goal (and (< (h) inf))))", None),
 ]
 
@@ -70,7 +73,7 @@ def build(rng, tier):
     n_worlds = 70 if tier == "quick" else 400
     for _ in range(n_worlds):
         w = C5.gen_domain(rng)
-        dtext = G.render(w.domain_tree("dom"), rng, noise=False)
+        dtext = G.render(w.domain_tree(C5.domain_name(w)), rng, noise=False)
         cases = []
         for _ in range(3):
             d07 = rng.random() < 0.25
@@ -79,7 +82,8 @@ def build(rng, tier):
                 desc["metric"] = True
             text = G.render(C5.problem_tree(desc), rng, noise=rng.random() < 0.3)
             rep = C5.has_repeat_fluent(desc)
-            cases.append({"text": text, "kind": "generated-" + desc["style"] + ("-repeats" if rep else ""),
+            cases.append({"text": text, "kind": "generated-" + desc["style"] + ("-repeats" if rep else "")
+                          + ("-twin-numeric-goals-" + desc["twins"] if desc.get("twins") else ""),
                           "klass": "D07" if rep else None,
                           "nontrivial": len(desc["init"]) + len(desc["goal"]) >= 2, "desc": desc})
         worlds.append({"domain_text": dtext, "cases": cases, "source": "generated"})
@@ -188,7 +192,8 @@ def run(args):
     cov["theorem_hypotheses_checked"] = hypotheses_report(results)
     cov["exhaustive"] = False
     cov["rule"] = ("valid problems of C05's generator over pddlgen domains widened with binary/ternary functions (all object list styles, "
-                   "constants, subtypes, repeated arguments, zero-arity atoms, all numeral forms, numeric goals), hand-written corner cases "
+                   "constants, subtypes, repeated arguments, zero-arity atoms, all numeral forms, numeric goals; every second domain with type / "
+                   "constant / predicate / function / object names that contain '-' and '_' and share prefixes, and a domain name with separators), hand-written corner cases "
                    "(empty sections, goal constants beyond 4 decimals, plain-decimal values whose repr is in exponent form, inf), and the shipped problem files each against its domain "
                    "(quick: files <= 2100 bytes); two export/parse rounds each. Non-trivial: >= 2 init/goal items; distinct by input hash.")
     cov["samples"] = [{"kind": c["input"]["world"]["cases"][0]["kind"],
